@@ -202,6 +202,24 @@ class Repo:
             return ('external', f'{target}.{orig}')
         return (kind, val)
 
+    def assigned_once(self, module, name):
+        """the module-level name is bound by exactly one statement of the module and by no `global` statement"""
+        tree = self.module_ast.get(module)
+        if tree is None:
+            return False
+        n = 0
+        for node in ast.walk(tree):
+            if isinstance(node, ast.Global) and name in node.names:
+                return False
+        for node in tree.body:
+            for t in ast.walk(node) if isinstance(node, (ast.Assign, ast.AugAssign, ast.AnnAssign, ast.For, ast.With, ast.Import, ast.ImportFrom,
+                                                             ast.FunctionDef, ast.ClassDef)) else []:
+                if isinstance(t, ast.Name) and isinstance(t.ctx, ast.Store) and t.id == name:
+                    n += 1
+            if isinstance(node, (ast.FunctionDef, ast.ClassDef)) and node.name == name:
+                n += 1
+        return n == 1
+
     def fn(self, qualname):
         return self.functions[qualname]
 
